@@ -79,15 +79,29 @@ class LineWorld(object):
         fn = m.AdbDevice._open
         self.code = fn.__code__
         src, first = inspect.getsourcelines(fn)
-        lo = next(i for i, l in enumerate(src) if '_local_id += 1' in l) + first
-        hi = next(i for i, l in enumerate(src) if 'adb_info = _AdbTransactionInfo(' in l) + first
-        self.lo, self.hi = lo, hi
         self.labels = {}
-        for i, l in enumerate(src):
-            ln = i + first
-            if lo <= ln <= hi and l.strip() and not l.strip().startswith('#'):
+        self.generic = False
+        try:
+            lo = next(i for i, l in enumerate(src) if '_local_id += 1' in l) + first
+            hi = next(i for i, l in enumerate(src) if 'adb_info = _AdbTransactionInfo(' in l) + first
+            for i, l in enumerate(src):
+                ln = i + first
+                if lo <= ln <= hi and l.strip() and not l.strip().startswith('#'):
+                    s = l.strip()
+                    self.labels[ln] = 'inc' if '+= 1' in s else 'cmp' if s.startswith('if ') else 'wrap' if '_local_id = 1' in s else 'take' if 'adb_info =' in s else 'other'
+            if sorted(set(self.labels.values())) != ['cmp', 'inc', 'take', 'wrap']:
+                raise StopIteration
+        except StopIteration:
+            # the block is not the one the design spec transcribes: preempt before every line of _open instead
+            self.generic = True
+            self.labels = {}
+            body_started = False
+            for i, l in enumerate(src):
                 s = l.strip()
-                self.labels[ln] = 'inc' if '+= 1' in s else 'cmp' if s.startswith('if ') else 'wrap' if '_local_id = 1' in s else 'take' if 'adb_info =' in s else 'other'
+                if body_started and s and not s.startswith('#') and not s.startswith('"""'):
+                    self.labels[i + first] = 'line%d' % i
+                if 'with self._local_id_lock' in l or '_local_id_lock' in l:
+                    body_started = True
 
         def tracer(frame, event, arg):
             if frame.f_code is self.code:
@@ -137,6 +151,11 @@ def replay_model_paths(ctx, start_model, paths):
     """spec->code: drive two real threads along each model path; compare counter, ids and line labels."""
     real_start = STARTS[start_model]
     steps = 0
+    probe = LineWorld(['t1'], real_start)
+    probe.sched.kill()
+    if probe.generic:
+        ctx.design_drift('the id allocation block of _open is not the one AdbAlloc transcribes (inc / cmp / wrap / take lines not found): model paths not replayed')
+        return 0
     for p in paths:
         w = LineWorld(['t1', 't2'], real_start)
         w.spawn_all()
@@ -272,6 +291,17 @@ def body(ctx):
                 ctx.violation(v, dict(kind='schedule', mode=mode, schedule=res[i][1]['schedule']))
             elif v in ('ok', 'C06.Stuck.K1'):
                 ctx.count(traces=1)
+    # ids after failed opens: an operation that times out must not make a later one reuse a live id
+    from . import c01
+    from .. import scen
+    t3, s3 = c01.late_reply_traces(ctx, rng, 40 if ctx.quick else 600, ['sync', 'async'])
+    v3, r3 = tlc.validate_traces('TraceEnv', t3)
+    ctx.add_tlc(r3, 'TraceEnv over %d sessions with a timed-out operation and late replies' % len(t3))
+    for (i, l, v) in v3:
+        if v.startswith('C14.'):
+            ctx.violation(v, dict(kind='session', mode=s3[i][0], spec=s3[i][1], failing_event=l - 1))
+        else:
+            ctx.count(traces=1)
     ctx.assumptions += ['fewer than 2^32-1 allocations during the life of any one stream', 'line-level (not bytecode-level) preemption inside the block']
 
 
